@@ -489,12 +489,21 @@ BOUNDARY_CPS = [0, 9, 10, 11, 12, 13, 28, 29, 30, 31, 32, 33, 34, 35, 36, 37, 39
                 0xff53, 0xff25, 0xb2, 0x2163, 0x1e9e, 0x390, 0x1f88]
 
 
+# multi-code-point sequences a pre-processing step could rewrite as a unit: surrogate pairs (high, low), CR LF, base +
+# combining marks (NFC-composable), emoji ZWJ sequence, Persian word with ZWNJ, BOM + letter, decomposed jamo
+UNI_SEQS = [[0xd800, 0xdc00], [0xdbff, 0xdfff], [0xd83d, 0xde00], [0xd800, 0xdfff, 0xdc00], [13, 10], [0x65, 0x301],
+            [0x41, 0x30a], [0x1f468, 0x200d, 0x1f469], [0x645, 0x6cc, 0x200c, 0x62e], [0xfeff, 0x61], [0x1112, 0x1161, 0x11ab],
+            [0x61, 0xad, 0x62], [0x2060, 0x27], [0x200b, 0x3b]]
+
+
 def uni(rng, n=None):
     n = n if n is not None else rng.choice([1, 2, 3, 5, 8, 13, 21, 40])
     out = []
     for _ in range(n):
         r = rng.random()
-        if r < 0.55:
+        if r < 0.08:
+            out.extend(rng.choice(UNI_SEQS))
+        elif r < 0.55:
             out.append(rng.choice(BOUNDARY_CPS))
         elif r < 0.8:
             out.append(rng.randrange(32, 127))
